@@ -241,7 +241,29 @@ def xor_instances():
         ("rectangular 3x2, transpose of the former", np.array([[e, e], [e, e], [q, q]]), np.array([[0, 0], [0, 1], [0, 1]])),
         ("3x2 with a zero row, biased", np.array([[q, e], [0, 0], [e, h]]), np.array([[0, 0], [0, 0], [0, 1]])),
         ("2x3 biased", np.array([[q, e, e], [e, q, e]]), np.array([[0, 0, 0], [0, 1, 0]])),
+        # the support of the distribution splits into connected components (round-6 seed: a consistency shortcut that explores
+        # only the component of the first asked question): a consistent 1x1 block next to a frustrated CHSH block, either order,
+        # and two frustrated blocks
+        ("3x3, support = consistent 1x1 block + CHSH block", np.array([[q, 0, 0], [0, 3 * e / 2, 3 * e / 2], [0, 3 * e / 2, 3 * e / 2]]),
+         np.array([[0, 0, 0], [0, 0, 0], [0, 0, 1]])),
+        ("3x3, support = CHSH block + consistent 1x1 block", np.array([[3 * e / 2, 3 * e / 2, 0], [3 * e / 2, 3 * e / 2, 0], [0, 0, q]]),
+         np.array([[0, 0, 0], [0, 1, 0], [0, 0, 1]])),
+        ("4x4, support = consistent 2x2 block + CHSH block", np.array([[e, e, 0, 0], [e, e, 0, 0], [0, 0, e, e], [0, 0, e, e]]),
+         np.array([[0, 1, 0, 0], [1, 0, 0, 0], [0, 0, 0, 0], [0, 0, 0, 1]])),
     ]
+
+
+def xor_oracle(inst):
+    """independent Tsirelson optimum (in the units of the dual objective, 2 x bias): primal Gram-matrix program
+    max sum_xy D_xy <a_x, b_y> over unit vectors, written entry by entry"""
+    import cvxpy
+    p, f = inst
+    q0, q1 = p.shape
+    D = p * (-1.0) ** f
+    G = cvxpy.Variable((q0 + q1, q0 + q1), symmetric=True)
+    obj = sum(float(D[x, y]) * G[x, q0 + y] for x in range(q0) for y in range(q1))
+    prob = cvxpy.Problem(cvxpy.Maximize(obj), [G >> 0, cvxpy.diag(G) == 1])
+    return 2 * float(prob.solve())
 
 
 def ref_xor(V, inst):
@@ -359,7 +381,7 @@ def obligations(tier):
         obs.append(ob_value_formula(reps))
     for name, p, f in xor_instances():
         obs.append(SdpTask("quantum_value.program_is_tsirelson_dual", {"game": name}, (lambda p=p, f=f: XORGame(p, f).quantum_value()), ref_xor, instance=(p, f),
-                           value_of=lambda r: 4 * (float(r) - 0.5), tol=1e-3))
+                           value_of=lambda r: 4 * (float(r) - 0.5), tol=1e-3, replay_oracle=xor_oracle))
     # the 0/1 predicate stored with other dtypes (bool, unsigned and signed integers): same program
     for name, p, f in xor_instances()[:2]:
         for storage in ("uint8", "bool", "int64"):
